@@ -86,7 +86,9 @@ def gen_expr(rng, syms: list[Symbol], depth: int, shared: list, transcend=False)
     if c < 0.94 or not transcend:
         den = 1 + sum(s ** 2 for s in rng.sample(syms, min(len(syms), rng.choice([1, 2]))))
         return a / den
-    f = rng.choice([sympy.sin, sympy.cos, sympy.exp])
+    # forward functions, and inverse∘forward compositions whose simplification is only valid on the principal branch
+    f = rng.choice([sympy.sin, sympy.cos, lambda u: sympy.exp(u / (1 + u ** 2)),   # bounded argument: never overflows
+                    lambda u: sympy.asin(sympy.sin(u)), lambda u: sympy.acos(sympy.cos(u)), lambda u: sympy.atan(sympy.tan(u))])
     return f(a)
 
 
@@ -218,6 +220,28 @@ def tame_definition(rng, n_state=None, n_control=1, n_sensors=1, singular=False,
             a, b = rng.choice(state), rng.choice(state)
             sensors[key][r] = sympy.sympify(rng.choice([1, 2]) * a + rng.choice([0, 1]) * b - rng.choice([0, 1]) / (1 + a ** 2))
     return Definition(dt, state, control, calib, model, sensors)
+
+
+def control_coefficient_definition(rng, n_state=None, n_control=None):
+    """linear in the states with coefficients that depend on the controls: the process Jacobian depends on the control but
+    not on the state (a filter that wrongly treats such a Jacobian as constant goes unnoticed on state-dependent models)"""
+    n = n_state or rng.choice([2, 3])
+    nc = n_control or rng.choice([1, 2])
+    names = fresh_names(rng, n + nc)
+    state = [Symbol(x) for x in names[:n]]
+    control = [Symbol(x) for x in names[n:]]
+    dt = Symbol("dt")
+    model = {}
+    for s in state:
+        e = 0
+        for t in rng.sample(state, rng.choice([1, min(2, n)])):
+            e = e + (Rational(rng.choice([1, -1, 2]), 4) + Rational(rng.choice([1, 2]), 4) * rng.choice(control) * dt) * t
+        e = e + dt * rng.choice(control)
+        model[s] = sympy.sympify(e)
+    for u in control:
+        if not any(u in model[s].free_symbols for s in state):
+            model[state[0]] = model[state[0]] + dt * u * state[-1]
+    return Definition(dt, state, control, [], model, {})
 
 
 def gen_point(rng, d: Definition):
